@@ -74,6 +74,18 @@ EDITS = [
  ("setu64.rs", "dispatch: 64 selects the bitmap table", r"(fn internal<'a>[\s\S]*?)\} else if b\.bits == 64 \{", r"\g<1>} else if b.bits == 63 {"),
  ("setu64.rs", "dispatch: internal_mut disagrees with internal", r"(fn internal_mut<'a>[\s\S]*?)if b\.bits == 0 \|\| b\.bits > 64 \{", r"\g<1>if b.bits == 0 || b.bits > 65 {"),
  ("setu32.rs", "dispatch: plain table threshold", r"(fn internal<'a>[\s\S]*?)if b\.bits == 0 \|\| b\.bits > 32 \{", r"\g<1>if b.bits == 0 || b.bits > 33 {"),
+ ("setu64.rs", "Tiny::insert: gap of the successor off by one", r"n = n - e - 1;", "n = n - e;"),
+ ("setu64.rs", "Tiny::insert: duplicate not recognised in the overflow search", r"if n == e \{\s*return Some\(backup\);", "if n + 1 == e {\n                                return Some(backup);"),
+ ("setu64.rs", "Tiny::insert: the last member's width is not tested", r"(// the new one is last\s*)if log_2\(e as u64\) > newb \{", r"\g<1>if log_2(e as u64) > newb + 1 {"),
+ ("setu32.rs", "Tiny::insert: the copied gaps are not re-tested against the new row", r"(let oldb = old_iter\.next\(\)\.unwrap\(\);\s*let n = self\.bits & mask\(oldb as usize\) as usize;\s*)if log_2\(n as u32\) > newb \{\s*return None;\s*\}", r"\g<1>"),
+ ("setu64.rs", "Tiny::next: first member offset", r"(fn next\(&mut self\) -> Option<u64> \{[\s\S]*?)self\.last = difference;", r"\g<1>self.last = difference + 1;"),
+ ("copyset.rs", "eq: lengths not compared", r"if self\.len\(\) != other\.len\(\) \{\s*return false;\s*\}\s*(for i in self\.iter\(\))", r"\g<1>"),
+ ("set64.rs", "Set64 eq: answers true on the first common member", r"(for k in other\.0\.iter\(\) \{\s*)if !self\.0\.contains\(k\) \{\s*return false;", r"\g<1>if self.0.contains(k) {\n                return true;"),
+ ("setu64.rs", "insert inline: answer of the Stack arm inverted", r"return newt\.sz != t\.sz;", "return newt.sz == t.sz;"),
+ ("setu32.rs", "insert empty: singleton stored without its tag", r"(InternalMut::Empty => \{\s*if let Some\(t\) = Tiny::from_singleton\(e\) \{\s*)\*self = SetU32\(t\.to_usize\(\) as \*mut S\);", r"\g<1>*self = SetU32(t.bits as *mut S);"),
+ ("copyset.rs", "operator: &a - &b keeps the common members", r"(fn sub\(self, rhs: &\$ty\) -> \$ty \{[\s\S]*?)if !rhs\.contains\(v\) \{", r"\g<1>if rhs.contains(v) {"),
+ ("copyset.rs", "operator: &a | &b sized from the smaller operand", r"if self\.len\(\) > rhs\.len\(\) \{", "if self.len() < rhs.len() {"),
+ ("copyset.rs", "operator: a - &b inserts instead of removing", r"(fn sub\(mut self, rhs: &\$ty\) -> \$ty \{\s*for v in rhs\.iter\(\) \{\s*)self\.remove\(v\);", r"\g<1>self.insert(v);"),
  ("setu64.rs", "BITSPLITS row", r"&\[25, 12, 12, 12\]", "&[26, 12, 12, 12]"),
  ("setu32.rs", "log_2 width", r"(fn log_2\(x: u32\)[\s\S]*?)num_bits::<u32>\(\) as u32 - x\.leading_zeros\(\)", r"\g<1>num_bits::<u32>() as u32 + 1 - x.leading_zeros()"),
  ("setu32.rs", "compute_array_bits large threshold", r"else if log_2\(mx\) > 62 \{", "else if log_2(mx) > 31 {"),
@@ -95,14 +107,14 @@ def main():
     shutil.copytree("/repo/src", W + "/repo/src")
     sh(f"rsync -a --exclude .lake/build/bin {V}/lean/ {W}/lean/")
     env = dict(os.environ, VERIF_REPO=W + "/repo", VERIF_GEN_OUT=W + "/lean/TinysetModel/Generated")
-    target = "TinysetModel.Proofs.Consts TinysetModel.Proofs.Fns TinysetModel.Proofs.Loops TinysetModel.Proofs.ContainsSrc TinysetModel.Proofs.RemoveSrc TinysetModel.Proofs.InsertSrc TinysetModel.Proofs.TinySrc TinysetModel.Proofs.IterSrc TinysetModel.Proofs.IterDrainSrc TinysetModel.Proofs.Fits"
+    target = "TinysetModel.Proofs.Consts TinysetModel.Proofs.Fns TinysetModel.Proofs.Loops TinysetModel.Proofs.ContainsSrc TinysetModel.Proofs.RemoveSrc TinysetModel.Proofs.InsertSrc TinysetModel.Proofs.TinySrc TinysetModel.Proofs.IterSrc TinysetModel.Proofs.IterDrainSrc TinysetModel.Proofs.TinyInsertSrc TinysetModel.Properties.C08 TinysetModel.Properties.C09 TinysetModel.Proofs.Fits"
     rc, out = sh(f"python3 {V}/tools/gen_consts.py && lake build {target}", cwd=W + "/lean", env=env)
     if rc != 0:
         print("baseline does not build:", out[-800:]); return 2
     n = caught = 0
     only = os.environ.get("TIE_ONLY")          # run only the edits whose description contains this text
     for fname, what, pat, rep in EDITS:
-        if only and only not in what:
+        if only and not any(o in what for o in only.split("|")):
             continue
         path = f"{W}/repo/src/{fname}"
         orig = open(path).read()
